@@ -766,6 +766,10 @@ class Database(SQLiteMixin):
                     }, ignore_duplicate=True)).fetchall()
 
         for txo in tx.outputs:
+            try:
+                txo.script.template
+            except ValueError:
+                continue  # third-party output with a script matching no template: nothing of ours to record
             if txo.script.is_pay_pubkey_hash and (txo.pubkey_hash == txhash or is_my_input):
                 conn.execute(*self._insert_sql(
                     "txo", self.txo_to_row(tx, txo), ignore_duplicate=True
